@@ -228,6 +228,52 @@ theorem resend_stacks_when_blending (t : Term) (s : Seg) (h : s.pl ∈ t.imgs) :
   have := List.count_pos_iff.2 h
   omega
 
+/-! ## an explicit clear, then a redraw -/
+
+/-- `clear_images()` — for either value of `now`: the model's `clearAll` is the delete-all *and* the
+class-level disguise bump — followed by the next redraw of any new canvas: every image line of that
+canvas is placed again. Hypotheses: urwid's row diff (`hrows`: a row whose image bytes — position,
+z-index, disguise of each image line — differ from the previous draw's is re-emitted) and the geometry
+(`hno`: no image line starts inside another). `s` is the screen state at the previous redraw. -/
+theorem clear_then_redraw_exact (e : Env) (s : Scr) (shards : List Shard) (R : List Nat) (t : Term)
+    (hk : e.kittySup = true) (hinj : ZInj e)
+    (hrows : ∀ r, rowKey e s s.cviews r ≠
+        rowKey e (tiClear e (clearAll e s).1 shards).1 (walk e shards) r → r ∈ R)
+    (hno : ∀ a ∈ segsOf e (walk e shards), ∀ b ∈ segsOf e (walk e shards), b.pl ≠ a.pl →
+      Term.inRect a.pl b.row b.col = false) :
+    (∀ p ∈ (t.run (toks (clearAll e s).2)).imgs, p.kittyProto = false) ∧
+    ∀ v ∈ walk e shards, ∀ g ∈ segsOfView e v,
+      g.pl ∈ (redraw e (clearAll e s).1 shards R (t.run (toks (clearAll e s).2))).2.imgs := by
+  refine ⟨by simp [clearAll, hk, toks, Term.run, Term.step, List.mem_filter], ?_⟩
+  intro v hv g hg
+  have hcv : (tiClear e (clearAll e s).1 shards).1.cviews = walk e shards := by simp [tiClear, hk]
+  have hgall : g ∈ segsOf e (walk e shards) := by
+    simp only [segsOf, List.mem_flatMap]; exact ⟨v, hv, hg⟩
+  obtain ⟨hgz, hgw, hkv⟩ := segsOfView_info hg
+  -- the row of `g` is re-emitted: its key contains `g` with a disguise no line of `s` can have
+  have hR : g.row ∈ R := by
+    apply hrows
+    intro heq
+    have hkey : (g.col, g.cols, g.z, (tiClear e (clearAll e s).1 shards).1.disguise g.widget) ∈
+        rowKey e (tiClear e (clearAll e s).1 shards).1 (walk e shards) g.row := by
+      simp only [rowKey, List.mem_map, List.mem_filter]
+      exact ⟨g, ⟨hgall, by simp⟩, rfl⟩
+    rw [← heq] at hkey
+    simp only [rowKey, List.mem_map, List.mem_filter, segsOf, List.mem_flatMap] at hkey
+    obtain ⟨g0, ⟨⟨v0, _, hg0⟩, _⟩, heq0⟩ := hkey
+    simp only [Prod.mk.injEq] at heq0
+    obtain ⟨_, _, hz0, hdis⟩ := heq0
+    obtain ⟨hg0z, hg0w, hkv0⟩ := segsOfView_info hg0
+    have hw : g0.widget = g.widget := by
+      rw [hg0w, hgw]; exact hinj _ _ hkv0 hkv (by rw [← hg0z, ← hgz, hz0])
+    rw [hw] at hdis
+    exact clear_then_tiClear_disguise e s shards hk g.widget hdis.symm
+  simp only [redraw, hcv]
+  apply emitAll_emitted
+  · intro a ha b hb hab
+    exact hno a (List.mem_filter.1 ha).1 b (List.mem_filter.1 hb).1 hab
+  · exact List.mem_filter.2 ⟨hgall, by simpa using hR⟩
+
 /- `placements_exact` at full strength would be: after each redraw the kitty placements on the terminal are
    exactly the image lines of the canvas just drawn. It is delivered as two halves: `no_ghost` (⊆, full) and
    `placements_exact_partial` (⊇, under the row-diff hypothesis `hrows` and the geometry hypothesis `hno`). -/
